@@ -559,6 +559,24 @@ def _exec_mpint(doc, res):
                 res.violation((PROPERTY, 'fixed-mpint-round-trip',), 'fixed-length mpints round-trip', '%d bits, %d bytes' % (value.bit_length(), length))
                 break
             res.stats['mpint.fixed_checked'] += 1
+            # ... and never truncate: a field too short for the value is refused with an invalid-value error
+            needed = max(1, (value.bit_length() + 7) // 8)
+            if needed > 1:
+                short = rng.choice((needed - 1, max(1, needed - rng.choice((1, 2, 3, 4, 5, 8))), max(1, (needed - 1) // 4 * 4)))
+                composer = ComposerBinary()
+                try:
+                    composer.compose_mpint(value, short)
+                    outcome = 'ok:' + bytes(composer.composed_bytes)[:12].hex()
+                except (core.RunTimeout, KeyboardInterrupt, SystemExit):
+                    raise
+                except BaseException as exc:  # pylint: disable=broad-except
+                    outcome = type(exc).__name__
+                res.stats['fault.out_of_range_value'] += 1
+                if outcome != 'InvalidValue':
+                    res.violation((PROPERTY, 'fixed-mpint-overflow-not-rejected', outcome.split(':')[0]),
+                                  'a value that does not fit the width is rejected with an invalid-value error rather than truncated',
+                                  'compose_mpint(<%d-bit value>, %d) -> %s' % (value.bit_length(), short, outcome))
+                    break
     # several mpints one after another in one buffer / one parser (how keys carry them), after a prefix
     if not res.violations:
         sequence = [rng.choice(values) for _ in range(rng.randrange(2, 6))]
